@@ -26,6 +26,9 @@ ASSUMPTIONS = ["gopkg.in/yaml.v3 decoding and pflag parsing are outside the mode
 
 def corpus():
     return [
+        "staged 100000000:5049244;3600000000000:10000000 - 0,1,33333333,50000000,99999999,100000000,100000001,1200100000000,1800100000000,2030095910496,3600100000000,3600100000001,3608652707871",   # C14l: an accepted profile of hours and millions yields its interpolation, not an overflow
+        "staged 3600000000000:3000000 - 0,1,1800000000000,3060000000000,3300000000000,3599999999999,3600000000000,3600000000001",
+        "staged 0:4000000;3600000000000:0 - 0,1,1200000000000,2340000000000,3000000000000,3599999999999,3600000000000",
         "parserate " + hx("5/"),            # D8
         "parserate " + hx("1/0s"),          # D9
         "parserate " + hx("1/00s"),
